@@ -23,6 +23,8 @@ def run(ctx):
     c_stores(ctx)
     a_instance_cache_key(ctx, t)
     b_threads_v2(ctx, t)
+    b_thread_list_final(ctx, t)
+    b_thread_id_untouched(ctx, t)
 
 
 def _raises_valueerror(ifnode):
@@ -364,3 +366,61 @@ def c_stores(ctx):
                         ok = True
                 msg = "get reads exactly `key` (no default shared between keys, no normalisation)" if ok else "get does not read exactly `key`: %s" % [src(s) for s in body]
             ctx.check("C20.c.key-faithful", rel, "%s.%s" % (cls.name, name), name, ok, msg, line=f.lineno)
+
+
+def b_thread_list_final(ctx, t):
+    """`the messages used for a turn = stored thread + new messages`: once the stored thread has been put in front of the request's messages, nothing may be added to or
+    re-ordered in that list before it is handed to the rails and written back."""
+    cc = find_function(t, "chat_completion")
+    if cc is None:
+        raise AnalysisError("chat_completion not found", anchor=API + "::chat_completion")
+    cfg = CFG(cc)
+    pre = [n for n in cfg.nodes if n.kind == "stmt" and isinstance(n.ast, ast.Assign) and src(n.ast.targets[0]) == "messages" and isinstance(n.ast.value, ast.BinOp)
+           and isinstance(n.ast.value.op, ast.Add) and src(n.ast.value.right) == "messages"]
+    if not pre:
+        raise AnalysisError("prepend of the stored thread not found", anchor=API + "::chat_completion::prepend")
+    P = pre[0]
+    uses = [n for n in cfg.nodes if n.ast is not None and n is not P and any(isinstance(c, ast.Call) and src(c.func).endswith(("generate_async", "stream_async")) for c in walk_no_nested(n.ast))]
+    later = cfg.reachable([m for m, _ in P.succ])
+    muts = []
+    for n in later:
+        if n.ast is None or n is P:
+            continue
+        a = n.ast
+        if isinstance(a, (ast.Assign, ast.AugAssign)):
+            tg = a.targets[0] if isinstance(a, ast.Assign) else a.target
+            if src(tg) == "messages" or (isinstance(tg, ast.Subscript) and src(tg.value) == "messages"):
+                muts.append(n)
+        for c in walk_no_nested(a):
+            if isinstance(c, ast.Call) and isinstance(c.func, ast.Attribute) and src(c.func.value) == "messages" and c.func.attr in ("insert", "append", "extend", "pop", "remove", "sort", "reverse", "clear"):
+                muts.append(n)
+    # only mutations that can still reach a use or the store matter
+    store = [n for n in cfg.nodes if n.ast is not None and any(isinstance(c, ast.Call) and src(c.func).endswith("datastore.set") for c in walk_no_nested(n.ast))]
+    relevant = [m for m in muts if any(u in cfg.reachable([m]) for u in uses + store)]
+    ctx.check("C20.b.prepend", API, "chat_completion", "the list is final after the thread was prepended", not relevant,
+              "between `messages = <thread> + messages` and its use/store nothing changes the list" if not relevant else
+              "`%s` changes the list AFTER the stored thread was put in front: the messages used (and written back) are no longer stored thread + new messages - e.g. the request's context message ends up before the "
+              "whole thread, is stored with it, and older context values override the fresh one" % first_line(relevant[0].ast, 60), line=(relevant[0].line if relevant else P.line))
+
+
+def b_thread_id_untouched(ctx, t):
+    """`threads with different ids never mix`: the datastore key must be a function of the thread id exactly as sent.  A model validator that rewrites thread_id
+    (case folding, trimming) makes distinct ids share one thread."""
+    rb = find_class(t, "RequestBody")
+    if rb is None:
+        raise AnalysisError("RequestBody not found", anchor=API + "::RequestBody")
+    bad = []
+    n = 0
+    for f in [x for x in rb.body if isinstance(x, ast.FunctionDef)]:
+        decs = [d for d in f.decorator_list if isinstance(d, ast.Call) and src(d.func) in ("validator", "field_validator") and any(isinstance(a, ast.Constant) and a.value == "thread_id" for a in d.args)]
+        if not decs:
+            continue
+        n += 1
+        vp = f.args.args[1].arg if len(f.args.args) > 1 else None
+        for r in [r for r in ast.walk(f) if isinstance(r, ast.Return)]:
+            if not (isinstance(r.value, ast.Name) and r.value.id == vp):
+                bad.append((f, r))
+    ctx.check("C20.b.key", API, "RequestBody", "thread_id reaches the handler unchanged", not bad,
+              "no validator rewrites thread_id (%d validator(s) on the field)" % n if not bad else
+              "validator `%s` returns `%s` for thread_id: ids that differ only in what it normalises (letter case) address the same stored thread, so one client's turn is generated from another's history"
+              % (bad[0][0].name, src(bad[0][1].value)), line=(bad[0][1].lineno if bad else rb.lineno))
